@@ -2,3 +2,6 @@ import Norad.Props.C17
 #print axioms C17.partial_layers_eq_restricted_full
 #print axioms C17.default_layer_always_present_and_first
 #print axioms C17.default_layer_empty_when_filtered_out
+#print axioms C17.partial_eq_restricted_full
+#print axioms C17.partial_succeeds_if_full_does
+#print axioms C17.unrequested_files_not_read
